@@ -592,6 +592,53 @@ func genAdvertise(repo string) *leanFile {
 			return true
 		})
 		l.Bool("shutdownAwaitsInflight", awaits, "schedule(): the ctx.Done branch waits on an object the send workers enter/leave")
+
+		// every way out of the scheduler's loop goes through that wait: each `return` inside the
+		// `for` is preceded, in its own block, by a call <gate>.close() / <gate>.Wait() on an
+		// object the workers use
+		allExits := true
+		nReturns := 0
+		var visit func(list []ast.Stmt, waited bool)
+		visit = func(list []ast.Stmt, waited bool) {
+			for _, st := range list {
+				switch x := st.(type) {
+				case *ast.ExprStmt:
+					for k := range recvOf(x) {
+						if inWorkers[k] && k != "sg" && k != "ctx" && k != "a" && k != "time" {
+							waited = true
+						}
+					}
+				case *ast.ReturnStmt:
+					nReturns++
+					if !waited {
+						allExits = false
+					}
+				case *ast.IfStmt:
+					visit(x.Body.List, waited)
+					if b, ok := x.Else.(*ast.BlockStmt); ok {
+						visit(b.List, waited)
+					}
+				case *ast.SelectStmt:
+					for _, cc := range x.Body.List {
+						visit(cc.(*ast.CommClause).Body, waited)
+					}
+				case *ast.SwitchStmt:
+					for _, cc := range x.Body.List {
+						visit(cc.(*ast.CaseClause).Body, waited)
+					}
+				case *ast.BlockStmt:
+					visit(x.List, waited)
+				case *ast.ForStmt:
+					visit(x.Body.List, waited)
+				}
+			}
+		}
+		for _, st := range fd.Body.List {
+			if fs, ok := st.(*ast.ForStmt); ok {
+				visit(fs.Body.List, false)
+			}
+		}
+		l.Bool("scheduleAllExitsAwait", allExits && nReturns > 0, "schedule(): every return inside the loop is preceded by the wait for in-flight transmissions")
 	}
 
 	// shutdown: terminate() checked first; lifetime zeroed on a copy
@@ -1306,6 +1353,38 @@ func genNetstate(repo string) *leanFile {
 			return true
 		})
 		l.Str("notifyMaskTest", maskTest, "notify: condition under which a subscription bucket is skipped")
+	}
+	// notify must not re-acquire w.mu (directly or through another method of the Watcher) while it
+	// holds its read lock: a recursive RLock deadlocks as soon as a Subscribe (writer) is pending.
+	{
+		locking := map[string]bool{}
+		for _, d := range wf.f.Decls {
+			fd, ok := d.(*ast.FuncDecl)
+			if !ok || fd.Recv == nil || fd.Body == nil {
+				continue
+			}
+			for _, c := range callsIn(fd.Body) {
+				if c == "w.mu.Lock" || c == "w.mu.RLock" {
+					locking[fd.Name.Name] = true
+				}
+			}
+		}
+		nested := false
+		if fd := wf.fn("Watcher.notify"); fd != nil {
+			n := 0
+			for _, c := range callsIn(fd.Body) {
+				if c == "w.mu.Lock" || c == "w.mu.RLock" {
+					n++
+				}
+				if strings.HasPrefix(c, "w.") && strings.Count(c, ".") == 1 && locking[strings.TrimPrefix(c, "w.")] {
+					nested = true
+				}
+			}
+			if n > 1 {
+				nested = true
+			}
+		}
+		l.Bool("notifyNestedLock", nested, "notify acquires w.mu more than once on a path (itself or through a locking Watcher method)")
 	}
 	if fd := wf.fn("Watcher.Watch"); fd != nil {
 		// close(ch) inside a deferred func that takes w.mu.Lock
